@@ -676,6 +676,31 @@ def run_img(ctx, case):
     if len(views) >= 2:
         metamorphic(F, obs, views, X['count_rule'])
     F.flush(ctx, case, list(EXPECTED_VIEWS))
+    # a name look-up in the dynamic segment interrupted by a read error the caller catches may be repeated: the repetition answers as an
+    # undisturbed object does
+    qs = case.get('queries', [])
+    if iter_syms and nsyms >= 3 and qs and 'seg.full' in obs and isinstance(obs['seg.full'].get('by_name'), dict):
+        from vf import streams
+        try:
+            fst = streams.FaultOnce(L['data']['full'])
+            dyn2 = next(sg for sg in lib()['ELFFile'](fst).iter_segments() if type(sg).__name__ == 'DynamicSegment')
+            dyn2.num_symbols()
+            fst.arm(3 + zlib.crc32(L['data']['full']) % (2 * nsyms))
+            try:
+                dyn2.get_symbol_by_name(qs[0])
+            except Exception:  # noqa
+                pass
+            fst.disarm()
+            if fst.faults:
+                ctx.count('transient-fault.lookup-interrupted')
+                for q in qs:
+                    want = obs['seg.full']['by_name'].get(q)
+                    got = attempt(lambda q=q: _by_name(dyn2, q))
+                    if not isinstance(want, Exc) and okey(got) != okey(want):
+                        ctx.fail('symbols|by_name|repeated-after-a-failed-attempt', 'query %r: an undisturbed object answers %r; after a look-up that a read error interrupted %r' % (q, want, got), case)
+                        break
+        except Exception as e:  # noqa
+            ctx.fail_exc('symbols|by_name|repeated-after-a-failed-attempt', e, case)
     # bookkeeping
     nstr = sum(1 for t in X['tags'] if t[2] is not None)
     nload = sum(1 for p in L['R']['ph'] if p['p_type'] == I.PT_LOAD and p['p_filesz'])
